@@ -4,6 +4,7 @@ from hypothesis import strategies as st
 
 from .. import plotgen, pools, refread
 from ..harness import POISONS, poisoned_empty, qcall
+from ..harness import verbosity as harness_verbosity
 
 ID = "C08"
 LEVEL = "exploration"
@@ -79,7 +80,7 @@ def check_case(case, ctx):
             pools.set_schedule(case["sched"] if not serial else None)
             try:
                 with poisoned_empty(pv):
-                    m = qcall(Mandoline, src, fields=list(req), limit_level=limit, serial=serial, verbose=0)
+                    m = qcall(Mandoline, src, fields=list(req), limit_level=limit, serial=serial, verbose=harness_verbosity(case))
                     runs[(pv, serial)] = qcall(m.slice, fformat="return")
             except Exception as e:
                 return [f"mandoline raised {type(e).__name__}: {e} (serial={serial})"]
@@ -93,7 +94,7 @@ def check_case(case, ctx):
     for serial in (True, False):
         try:
             with poisoned_empty(POISONS[0]):
-                m = qcall(Mandoline, src, fields=list(req), limit_level=limit, serial=serial, verbose=0)
+                m = qcall(Mandoline, src, fields=list(req), limit_level=limit, serial=serial, verbose=harness_verbosity(case))
                 first = qcall(m.slice, fformat="return")
                 # the caller owns what it was given: editing the returned arrays in place must not change later results
                 for key, arr in first.items():
